@@ -270,6 +270,7 @@ def x86_part(run, quick):
         run.cov["x86_native"] = "scratch buffer could not be mapped below 2 GB: native comparison skipped"
         return
     rng = random.Random(run.seed * 743 + 6)
+    XG.ABS_SCRATCH = sc + 0x8000 + 56
     n = 2500 if quick else 60000
     WIN = 160
     done = 0
